@@ -1,7 +1,7 @@
 (* C02 — Liveness is exactly the set of register bytes that can still be read. *)
 From Avo Require Import Base.Prelude.
 From stdpp Require Import gmap.
-From Avo Require Import Base.MaskSet Model.IR Model.Liveness Proofs.LivenessProofs Proofs.LivenessTerm Proofs.LiveSpecProofs.
+From Avo Require Import Base.MaskSet Model.IR Model.Liveness Proofs.LivenessProofs Proofs.LivenessTerm Proofs.LiveSpecProofs Model.Sem Proofs.SimProofs Proofs.SimLink Proofs.LiveSem.
 Open Scope N_scope.
 
 (* For every program (any CFG: backward branches, unreachable code, falling off the end), when the
@@ -94,3 +94,25 @@ Example liveness_example :
   end.
 Proof. vm_compute. reflexivity. Qed.
 Print Assumptions liveness_example.
+
+(* WHAT "NOT LIVE" MEANS FOR AN EXECUTION.  For every instruction semantics F that follows the CFG and
+   supplies a value per declared output (reads only what is declared, writes only what is declared:
+   the machine of Model/Sem.v), two register files that agree on the bytes reported live before
+   instruction j go through the same program points with the same memory for any number of steps, and
+   still agree on what is live wherever they arrive: a byte that is not reported live can never
+   influence the function.  This is the semantic content of the "only if" direction of the property,
+   for the liveness the model computes (which the per-run comparison ties to pass.Liveness). *)
+Theorem bytes_not_reported_live_cannot_influence_the_run :
+  forall (val memt : Type) (F : nat -> list val -> memt -> list val * memt * option nat)
+         (pr : list (list reg * list reg * list (option nat))) (r : st) (fuel : nat),
+  liveness fuel (SimLink.p pr) = Some r ->
+  (forall j i vs m outs m' n, List.nth_error (P pr) j = Some i -> F j vs m = (outs, m', Some n) -> In n (m_succ i)) ->
+  (forall j i vs m outs m' npc, List.nth_error (P pr) j = Some i -> F j vs m = (outs, m', npc) -> List.length outs = List.length (m_defs i)) ->
+  forall n j R R' m st1,
+    (forall l, LIn r j l -> R l = R' l) ->
+    mrun val memt F (P pr) n (j, R, m) = Some st1 ->
+    exists j1 R1 R1' m1, st1 = (j1, R1, m1)
+      /\ mrun val memt F (P pr) n (j, R', m) = Some (j1, R1', m1)
+      /\ (forall l, LIn r j1 l -> R1 l = R1' l).
+Proof. exact dead_bytes_do_not_matter. Qed.
+Print Assumptions bytes_not_reported_live_cannot_influence_the_run.
